@@ -616,6 +616,10 @@ func genPlan(g *prng, flavour string) sessPlan {
 			p.ops = append(p.ops, op)
 		}
 		if g.chance(1, 3) {
+			// a cancellation naming a notification's task key arrives while notification handlers are running
+			p.inject = []string{fmt.Sprintf("negcancel@%d", 1-ep)}
+		}
+		if g.chance(1, 3) {
 			// several compressed calls of ONE endpoint in flight together: whatever state the compressors keep per
 			// connection is used by all of them between compressing and handing the frame over
 			ct := []int{1, 1, 2}[g.intn(3)]
